@@ -60,6 +60,39 @@ def h_op(f, ns, start='zero', kind='offline', same_start=False):
     return body
 
 
+def h_nested(f, ns, start='zero'):
+    """nested formulas of the fragment that has a closed-form oracle (refct.rho_expr): pointwise operators over any
+    variables, unary temporal operators over pointwise one-variable operands"""
+    f = T(f)
+    vs = sorted(refsem.variables(f))
+
+    def body(env):
+        A = env.A
+        s = ct.make_spec('offline', 'out = ' + text(f), vs)
+        sigs = {v: ct.signal(env, v, n, start) for v, n in zip(vs, ns)}
+        out = s.evaluate(*[[v, [list(p) for p in sigs[v]]] for v in vs])
+        out = [list(p) for p in out]
+        env.observe('out', out)
+        res = ct.wellformed(A, out)
+        S, E = refct.domain(A, [sigs[v] for v in vs])
+        if not out:
+            return res + [('empty-output-only-if-empty-domain', A.lt(E, S))]
+        res.append(('covers-start', A.Or(A.lt(E, S), A.le(out[0][0], S))))
+        tau = env.real('tau')
+        env.assume(A.And(A.le(S, tau), A.le(tau, E)))
+        res.append(('rho_ct', A.eq(refct.val(A, out, tau), refct.rho_expr(A, f, sigs, tau))))
+        return res
+    return body
+
+
+C05 = ('const', 0.5)
+NESTED = [('once_t', ('not', X), 0, 1), ('always_t', ('geq', X, C05), 1, 2), ('eventually_t', ('abs', X), 0, 1), ('historically', ('leq', X, C05)),
+          ('and', ('once', X), ('historically', X)), ('not', ('once_t', X, 0, 1)), ('or', ('always_t', X, 0, 1), X),
+          ('sub', ('once_t', X, 0, 1), ('historically_t', X, 0, 1)), ('implies', ('once', ('geq', X, C05)), ('always_t', ('leq', X, ('const', 2.0)), 0, 1)),
+          ('and', ('once_t', X, 0, 1), ('always_t', Y, 0, 1)), ('geq', ('eventually_t', X, 0, 1), ('once', Y)), ('eventually', ('and', ('geq', X, C05), ('leq', X, ('const', 2.0)))),
+          ('always', ('neg', X)), ('or', ('eventually', X), ('always', ('not', X)))]
+
+
 def obligations(tier, rng):
     quick = tier == 'quick'
     bq = [(0, 1), (1, 2), (1, 1)] if quick else [(0, 1), (1, 2), (1, 1), (0, 0), (2, 3), (0, 3), (1, 3)]
@@ -87,6 +120,10 @@ def obligations(tier, rng):
                     continue            # 1-2 min each; thorough tier only
                 out.append(ob('C04', 'op', '%s/%s/n=[2, 2]%s' % (start, text(f), '/same-start' if same else ''), f=f, ns=[2, 2],
                               start=start, same_start=same, max_paths=60000, wall=1500))
+    for f in NESTED:
+        two = len(refsem.variables(f)) > 1
+        for ns in ([[2, 2]] if two else ([[3]] if quick else [[3], [4]])):
+            out.append(ob('C04', 'nested', 'nested/%s/n=%s' % (text(f), ns), f=f, ns=ns, max_paths=60000, wall=900))
     for k in BINT:
         for a, b in [(1, 2)]:
             f = (k, X, Y, a, b)
